@@ -117,6 +117,31 @@ def fluid_ops(net, rng):
     others = [f for f in (["water"] if not fl.is_gas else ["hgas", "lgas", "hydrogen", "methane"]) if f != fl.name]
     if others:
         out.append((["fluid_swap", rng.choice(others)], ["fluid_original"]))
+    # things that live outside the element tables: new standard types (pump, pipe) with an element switched to them,
+    # a first row of a component the net did not use so far
+    if "pump" in net and len(net.pump) and "pump" in net.std_types:
+        row = int(rng.choice(list(net.pump.index)))
+        cur = net.pump.at[row, "std_type"]
+        base = rng.choice([x for x in sorted(net.std_types["pump"].keys()) if x != cur] or [cur])
+        out.append((["stdtype_new_pump", "verif_pump_%d" % rng.randint(0, 99), base, row],
+                    ["edit", "pump", row, "std_type", cur]))
+    if len(net.pipe):
+        row = int(rng.choice(list(net.pipe.index)))
+        out.append((["stdtype_new_pipe", "verif_pipe_%d" % rng.randint(0, 99),
+                     {"inner_diameter_mm": rng.choice([70.3, 107.1, 131.7]), "outer_diameter_mm": 140.0,
+                      "k_mm": rng.choice([0.1, 0.3]), "u_w_per_m2k": 0.0}, row], ["row_restore", "pipe", row]))
+    js = [int(j) for j in net.junction.index[net.junction.in_service.values]]
+    unused = [(fn, t, kw) for fn, t, kw in (
+        ("create_source", "source", {"junction": rng.choice(js), "mdot_kg_per_s": 0.011}),
+        ("create_mass_storage", "mass_storage", {"junction": rng.choice(js), "mdot_kg_per_s": 0.007}),
+        ("create_valve", "valve", {"junction": js[0], "element": js[-1], "et": "ju", "inner_diameter_mm": 60.,
+                                   "opened": True}),
+        ("create_flow_control", "flow_control", {"from_junction": js[0], "to_junction": js[-1],
+                                                 "controlled_mdot_kg_per_s": 0.013}))
+              if (t not in net or not len(net[t])) and len(js) >= 2]
+    if unused:
+        fn, t, kw = rng.choice(unused)
+        out.append((["add_component", fn, kw], ["drop_rows", t]))
     if "pump" in net and len(net.pump) and "pump" in net.std_types:
         used = sorted(set(net.pump.std_type.values))
         alls = sorted(net.std_types["pump"].keys())
@@ -462,9 +487,10 @@ def probe_description_objects(ctx, specs):
         if ctx.quick and len(fo) > 3:
             # always the density (used in several places of the calculation), the rest sampled
             dens = [x for x in fo if x[0][1] == "density"][:2]
-            rest = [x for x in fo if x not in dens]
+            outside = [x for x in fo if x[0][0] in ("stdtype_new_pump", "stdtype_new_pipe", "add_component")]
+            rest = [x for x in fo if x not in dens and x not in outside]
             ctx.rng.shuffle(rest)
-            fo = dens + rest[:3 - len(dens)]
+            fo = dens + outside + rest[:1]
         for op, undo in fo:
             for kw in (kws if not ctx.quick else kws[-1:]):
                 for hist in ([["run", kw], op, ["run", kw]], [op, ["run", kw], undo, ["run", kw]]):
@@ -713,6 +739,17 @@ def run(ctx):
     # where a fluid property enters depends on the net (heights, pumps / compressors, friction model, thermal part):
     # all generated nets plus gas / water nets with height differences
     extra = []
+    npump = 0
+    for _ in range(60):                                   # water nets with an in-service pump (standard types in use)
+        if npump >= (3 if ctx.quick else 6):
+            break
+        sp = gen.gen_net(ctx.rng, "water")
+        if any(fn == "create_pump" and kw.get("in_service", True) for fn, kw in sp["ops"]):
+            from harness import c12_hist as H
+            if H.do_run(gen.build(sp), {"mode": "hydraulics", "use_numba": False})[0] != "ok":
+                continue                                  # a net that does not converge shows nothing
+            extra.append(("water", sp))
+            npump += 1
     want = ["gas", "gas", "gas", "water"] if ctx.quick else ["gas"] * 8 + ["water"] * 4
     for _ in range(80):
         if not want:
